@@ -354,8 +354,13 @@ fn run_sink_line(line_no: u64, line: &Value, w: &mut TraceWriter, summ: &mut Vec
             }
             w.write(&e2);
         }
-        if k == 0 {
-            summ.push(summarise(line_no, line, &r));
+        {
+            let mut sm = summarise(line_no, line, &r);
+            let nonfull = r.writes.iter().any(|(len, tag, acc)| tag != "acc" || acc != len);
+            let m = sm.as_object_mut().unwrap();
+            m.insert("hash".into(), json!(format!("{}-{}", m["hash"].as_str().unwrap_or(""), k)));
+            m.insert("sched_nonfull".into(), json!(nonfull));
+            summ.push(sm);
         }
         n += 1;
     }
